@@ -197,7 +197,24 @@ def float_program(rng):
         calls.append(("fless", "(fless %r %r)" % (a, b)))
     for n in (0, 3999999999, 4000000001, -5):
         calls.append(("tofl", "(tofl %d)" % n))
-    return shadowed(fns, calls)
+    # literals that need 16-17 significant digits: a sum compared with its exact spelling and with the neighbouring doubles
+    import math
+    fns.append(("fsum", "fn fsum(a: float, b: float, want: float) -> int {\n    let s: float = (+ a b)\n    if (== s want) {\n        return 1\n    }\n    if (< s want) {\n        return 0\n    }\n    return 2\n}\n"))
+    def fl(x):
+        r = repr(x)
+        return r if "e" not in r and "." in r else "%.17f" % x
+    for _ in range(5):
+        a, b = rng.choice([0.1, 0.2, 0.3, 0.7, rng.random(), rng.random() / 8]), rng.choice([0.2, 0.1, 0.6, rng.random(), rng.random() / 16])
+        w = a + b
+        for want in (w, math.nextafter(w, 2.0), math.nextafter(w, -1.0)):
+            calls.append(("fsum", "(fsum %s %s %s)" % (fl(a), fl(b), fl(want))))
+    # top-level float constants (inlined by the native back end): whole values and 17-digit values
+    k1, k2 = rng.choice([1.0, 3.0, 7.0]), rng.choice([2.0, 4.0, 8.0])
+    c3 = 0.1 + 0.2
+    pre = "let FC_A: float = %s\nlet FC_B: float = %s\nlet FC_C: float = %s\n" % (fl(k1), fl(k2), fl(c3))
+    fns.append(("fconst", "fn fconst(x: float) -> int {\n    let mut r: int = 0\n    if (> (/ FC_A FC_B) 0.1) {\n        set r (+ r 1)\n    }\n    if (== (+ x 0.2) FC_C) {\n        set r (+ r 10)\n    }\n    if (< (* (/ FC_A FC_B) FC_B) FC_A) {\n        set r (+ r 100)\n    }\n    return (+ r (cast_int (* (/ FC_A FC_B) 1000.0)))\n}\n"))
+    calls += [("fconst", "(fconst 0.1)"), ("fconst", "(fconst 0.10000000000000002)")]
+    return pre + shadowed(fns, calls)
 
 
 def strconv_program(vals):
